@@ -187,6 +187,14 @@ def strat_system(ctx):
     })
 
 
+def strat_onecell(ctx):
+    return st.fixed_dictionaries({
+        "sys": gen.system_spec(variety="any", max_species=3, max_reactions=3, max_order=3, max_cells=1, chemostats="species"),
+        "pool": pool_st, "route_a": st.sampled_from(["ctor", "dict"]), "route_b": st.sampled_from(["ctor", "dict"]),
+        "out_a": gen.us_any, "out_b": gen.us_any,
+    })
+
+
 def check_system(ctx, c):
     A = c["sys"]
     Bs = rerender(A, Pool(c["pool"]["syss"], c["pool"]["ints"]))
@@ -215,6 +223,17 @@ def check_system(ctx, c):
         if abs(va[t] - dx[t]) > tol or abs(vb[t] - dx[t]) > tol:
             raise Violation("rate of change entry %d: A %r, B %r, reference %r" % (t, va[t], vb[t], dx[t]),
                             key="system:dstatedt-ref")
+    if model.n == 1:
+        # the right-hand side exported for external integrators (one-cell systems), asked in two unit systems
+        for nm, sysobj, U in (("A", sa, c["out_a"]), ("B", sb, c["out_b"])):
+            f = sut_call("make_dxdtf %s" % nm, sysobj.make_dxdtf, B.US(U))
+            qs, ts = float(si.QUANTITY[U["quantity"]]), float(si.TIME[U["time"]])
+            got = sut_call("dxdtf(t, x) %s" % nm, f, 0.0, [v / qs for v in x])
+            for t in range(len(dx)):
+                g = float(got[t]) * qs / ts
+                if abs(g - dx[t]) > RTOL * sc[t] + 1e-300:
+                    raise Violation("make_dxdtf asked in (%s, %s, %s) on rendering %s: entry %d = %r molecule/s, reference %r" % (
+                        U["space"], U["time"], U["quantity"], nm, t, g, dx[t]), key="system:dxdtf-units")
 
 
 # ---- facet: euler ----------------------------------------------------------------------------------
@@ -364,6 +383,7 @@ def check_out(ctx, c):
 
 FACETS = [
     Facet("system", check_system, strategy=strat_system, examples=(480, 8000), shards=(16, 16)),
+    Facet("one_cell_rhs", check_system, strategy=strat_onecell, examples=(320, 6000), shards=(8, 16)),
     Facet("euler", check_euler, strategy=strat_euler, examples=(800, 20000), shards=(8, 16), setup=sim.setup_plain),
     Facet("output_units", check_out, strategy=strat_out, examples=(600, 12000), shards=(6, 16), setup=sim.setup_plain),
 ]
